@@ -221,7 +221,7 @@ for _fam, _ops in {
     "deep_copy": ["copy_default", "copy_deep", "copy_deep_data", "deepcopy"],
     "isel_positional_dict": ["isel_positional_dict", "isel_positional_dict_two"],
     "own_topological_aggregation": ["own_topological_mean_face", "own_topological_mean_edge", "own_topological_max_face"],
-    "own_remap": ["own_remap_nn_faces", "own_remap_nn_nodes"],
+    "own_remap": ["own_remap_nn_faces", "own_remap_nn_nodes", "own_remap_nn_faces_cartesian", "own_remap_idw_edges_cartesian"],
     "xarray_indexing_of_grid_dim": ["getitem_slice_grid_dim", "getitem_int_list_grid_dim", "isel_indexers_kw_grid_dim", "head_grid_dim",
                                     "sel_grid_dim", "loc_grid_dim", "drop_isel_grid_dim"],
 }.items():
@@ -264,6 +264,8 @@ def _own_ops(dest_grid):
         ("own_topological_max_face", lambda a: a.topological_max("face"), "same"),
         ("own_remap_nn_faces", lambda a: a.remap.nearest_neighbor(dest_grid, "face centers"), "dest"),
         ("own_remap_nn_nodes", lambda a: a.remap.nearest_neighbor(dest_grid, "nodes"), "dest"),
+        ("own_remap_nn_faces_cartesian", lambda a: a.remap.nearest_neighbor(dest_grid, "face centers", coord_type="cartesian"), "dest"),
+        ("own_remap_idw_edges_cartesian", lambda a: a.remap.inverse_distance_weighted(dest_grid, "edge centers", coord_type="cartesian", k=2), "dest"),
         ("own_get_dual", lambda a: a.get_dual(), "new"),
         ("own_subset_nn", lambda a: a.subset.nearest_neighbor((float(a.uxgrid.node_lon[0]), float(a.uxgrid.node_lat[0])), 1, element="nodes"), "new"),
     ]
